@@ -59,7 +59,7 @@ For each change i = 1..{n} create the directory {wt}/mutants/m<i>/ containing:
                  (plus the standard library) and must finish within 60 seconds.
   - meta.json  : {{"property": "{pid}", "summary": "<one sentence: what the change does>", "needs": "<what is needed
                  for it to manifest>", "files": [...], "tests_before": "<passed/failed counts>", "tests_after": "<counts>"}}
-After writing each patch.diff, restore the tree with `git -C {wt} checkout -- .` before starting the next change, and
+After writing each patch.diff, restore the tree with `git -C {wt} checkout -- .` before starting the next change (never use `git stash`: the stash is shared by all worktrees of the repository and other people are working in sibling worktrees), and
 verify at the end, for every change: (1) `git apply` works on the clean tree, (2) the test suite pass/fail set is unchanged
 with the change, (3) demo.py prints FAIL with the change and PASS without it. Leave the worktree clean (no modified tracked
 files) when you finish; the mutants/ directory stays. Finish with a short report listing the changes and the results of
